@@ -117,7 +117,9 @@ impl<'a> BerDecoder<'a> for SnmpReal {
                 match f & 0x3f {
                     // ISO 6093 NR1: i.e. 456
                     1 => {
-                        let s = from_utf8(&i[1..]).map_err(|_| SnmpError::InvalidData)?;
+                        let s = from_utf8(&i[1..])
+                            .map_err(|_| SnmpError::InvalidData)?
+                            .trim_start_matches(' ');
                         // Signed integer of any length, not only the i32 range
                         if !s.bytes().all(|c| c.is_ascii_digit() || c == b'+' || c == b'-') {
                             return Err(SnmpError::InvalidData);
@@ -125,15 +127,9 @@ impl<'a> BerDecoder<'a> for SnmpReal {
                         s.parse::<f64>().map_err(|_| SnmpError::InvalidData)?
                     }
                     // ISO 6093 NR2: i.e. 456.7
-                    2 => {
-                        let s = from_utf8(&i[1..]).map_err(|_| SnmpError::InvalidData)?;
-                        s.parse::<f64>().map_err(|_| SnmpError::InvalidData)?
-                    }
+                    2 => parse_iso6093(&i[1..], false)?,
                     // ISO 6093 NR3: i.e. 4567e-1
-                    3 => {
-                        let s = from_utf8(&i[1..]).map_err(|_| SnmpError::InvalidData)?;
-                        s.parse::<f64>().map_err(|_| SnmpError::InvalidData)?
-                    }
+                    3 => parse_iso6093(&i[1..], true)?,
                     _ => return Err(SnmpError::InvalidData),
                 }
             }
@@ -160,6 +156,25 @@ impl From<SnmpReal> for f64 {
     fn from(value: SnmpReal) -> Self {
         value.0
     }
+}
+
+/// ISO 6093 NR2/NR3 field: optional leading spaces, optional sign, digits with
+/// a decimal mark which is either a full stop or a comma, and, for NR3 only,
+/// an exponent. Anything else ("inf", "nan", ...) is not a number.
+fn parse_iso6093(field: &[u8], exponent: bool) -> Result<f64, SnmpError> {
+    let s = from_utf8(field)
+        .map_err(|_| SnmpError::InvalidData)?
+        .trim_start_matches(' ');
+    if !s.bytes().all(|c| {
+        c.is_ascii_digit()
+            || matches!(c, b'+' | b'-' | b'.' | b',')
+            || (exponent && matches!(c, b'e' | b'E'))
+    }) {
+        return Err(SnmpError::InvalidData);
+    }
+    s.replace(',', ".")
+        .parse::<f64>()
+        .map_err(|_| SnmpError::InvalidData)
 }
 
 #[cfg(test)]
